@@ -13,7 +13,7 @@
    * every constructor call, every helper call without _inplace=True and every
      deepcopy — whether it raises or not — writes no pre-existing cell;
    * every in-place operation on a frozen instance writes no pre-existing cell.
-   * obj.a = v, and every attribute-level and element-level helper called with
+   * obj.a = v, del obj.a, and every attribute-level and element-level helper called with
      _inplace=True (with_/update_/transform_/reset_<attr>, with_/update_/
      transform_/without_<item> on list, dict and set attributes), on any
      instance, frozen or not, when nothing is invalidated by the attribute: an
@@ -95,6 +95,17 @@ Theorem C04_atomic_partial_inplace_with :
     frame (length (heap s)) s (snd (step ct roots (OpHelper x (HWith a) h) s)).
 Proof. intros ct Hct. intros. eapply inplace_with_op_err_frame; eauto. Qed.
 
+(* del obj.a (restores the prepared default, or removes the attribute) *)
+Theorem C04_atomic_partial_deletion :
+  forall ct, no_dnc_classes ct ->
+  forall roots x a s l c d k e,
+    nth x roots VNone = VRef l -> l < length (heap s) ->
+    nth_error (heap s) l = Some (OInst c d) -> lookup_cls ct c = Some k ->
+    no_dependants k a ->
+    fst (step ct roots (OpDelAttr x a) s) = Err e ->
+    frame (length (heap s)) s (snd (step ct roots (OpDelAttr x a) s)).
+Proof. intros ct Hct. intros. eapply delattr_op_err_frame; eauto. Qed.
+
 (* every attribute-level / element-level helper with _inplace=True *)
 Theorem C04_atomic_partial_inplace_attribute_and_element_helpers :
   forall ct, no_dnc_classes ct ->
@@ -175,6 +186,7 @@ Print Assumptions C04_atomic_partial_frozen_inplace.
 Print Assumptions C04_constructor_result_is_fresh.
 Print Assumptions C04_atomic_partial_assignment.
 Print Assumptions C04_atomic_partial_inplace_with.
+Print Assumptions C04_atomic_partial_deletion.
 Print Assumptions C04_atomic_partial_inplace_attribute_and_element_helpers.
 Print Assumptions C04_atomic_partial_inplace_update_single_keyword.
 Print Assumptions C04_atomic_partial_inplace_transform_single_keyword.
